@@ -590,3 +590,39 @@ func H03g_connect_setter_history() {
 	}
 	vrtEncodeCheck(m, &exp)
 }
+
+// H12_auto_ids: two automatically numbered requests encoded one after the
+// other, from an arbitrary value of the process-wide counter: both
+// identifiers are non-zero and they differ (requests in flight together on
+// one connection carry pairwise distinct identifiers - C12). One pair from an
+// arbitrary counter value covers every history of the counter.
+func H12_auto_ids() {
+	gPacketID = vrtUint64("counter")
+	mk := func(kind int) Message {
+		switch kind {
+		case 0:
+			m := NewPublishMessage()
+			m.SetTopic([]byte("a"))
+			m.SetPayload([]byte("p"))
+			m.SetQoS(1)
+			return m
+		case 1:
+			m := NewSubscribeMessage()
+			m.AddTopic([]byte("a"), 1)
+			return m
+		}
+		m := NewUnsubscribeMessage()
+		m.AddTopic([]byte("a"))
+		return m
+	}
+	a := mk(vrtChoice("first", 3))
+	b := mk(vrtChoice("second", 3))
+	buf := make([]byte, 32)
+	_, err1 := a.Encode(buf)
+	_, err2 := b.Encode(buf)
+	vrtAssert("C12.auto_encode_ok", err1 == nil && err2 == nil)
+	vrtAssert("C12.auto_ids_nonzero", vrtAnd(a.PacketID() != 0, b.PacketID() != 0))
+	vrtAssert("C12.auto_ids_distinct", a.PacketID() != b.PacketID())
+	vrtObserve("ids", a.PacketID(), b.PacketID())
+	vrtReach("C12.auto_ids")
+}
